@@ -149,6 +149,7 @@ func checkC02(w *World, r *Report) {
 					}
 					popped(arg, 0)
 					r.Check(good, "R02.8", fmt.Sprintf("%s: %s #%d", funcKey(f), nm(c.Call.Method), n), c.Pos(), "the path asked about was popped", "the tree is asked about `"+from+"`, a path that is not taken off the stack: it stays underneath the result and the next relative path or predicate key of the expression is attached to it")
+				r.StandsFor("R02.8", staticCallSites(allFuncs(w.SSAPkg("xpath")), f))
 				}
 			}
 		}
@@ -452,60 +453,160 @@ func c02Steps(w *World, r *Report) {
 
 func c02Keys(w *World, r *Report) {
 	pe := w.Method("xpath", "ProgBuilder", "PredicatesEnd")
-	fd, p := w.FuncDecl(pe)
+	fd, _ := w.FuncDecl(pe)
 	cls := closuresIn(fd)
 	if len(cls) != 1 {
 		panic(undecided{"PredicatesEnd closure"})
 	}
 	cl := cls[0]
-	// statements in order: range over map collecting keys → sort → range over keys calling AddKey
-	var keySlice types.Object
-	collectIdx, sortIdx, attachIdx := -1, -1, -1
-	for i, s := range cl.Body.List {
-		switch x := s.(type) {
-		case *ast.RangeStmt:
-			if t := p.TypesInfo.TypeOf(x.X); t != nil {
-				if _, isMap := t.Underlying().(*types.Map); isMap {
-					// body: keySlice = append(keySlice, k)
-					ast.Inspect(x.Body, func(n ast.Node) bool {
-						if as, ok := n.(*ast.AssignStmt); ok && len(as.Rhs) == 1 {
-							if ce, ok := as.Rhs[0].(*ast.CallExpr); ok {
-								if id, ok := ce.Fun.(*ast.Ident); ok && id.Name == "append" && objOfIdent(p, ce.Args[1]) == objOfIdent(p, x.Key) {
-									keySlice = objOfIdent(p, as.Lhs[0])
-									collectIdx = i
-								}
-							}
-						}
-						return true
-					})
-				} else if keySlice != nil && objOfIdent(p, x.X) == keySlice {
-					// attaches
-					ast.Inspect(x.Body, func(n ast.Node) bool {
-						if ce, ok := n.(*ast.CallExpr); ok {
-							if c := calleeOf(p, ce); c != nil && nm(c) == "AddKey" && len(ce.Args) == 2 {
-								// receiver chain: PeakPath().LastPathElem()
-								recv := types.ExprString(ce.Fun)
-								if strings.Contains(recv, "PeakPath().LastPathElem()") && objOfIdent(p, ce.Args[0]) == objOfIdent(p, x.Value) {
-									if ix, ok := ce.Args[1].(*ast.IndexExpr); ok && objOfIdent(p, ix.Index) == objOfIdent(p, x.Value) {
-										attachIdx = i
+	// on SSA: AddKey(k, m[k]) on PeakPath().LastPathElem(), for every k of a list that holds the keys
+	// of m and has been sorted before the loop that reads it
+	attached, sorted := false, false
+	if f := w.SSAFunc(pe); f != nil && len(f.AnonFuncs) == 1 {
+		cf := f.AnonFuncs[0]
+		full := func(c *ssa.Call) string {
+			sc := c.Call.StaticCallee()
+			if sc == nil {
+				return ""
+			}
+			if o := sc.Object(); o != nil {
+				if fn, ok := o.(*types.Func); ok {
+					return fn.FullName()
+				}
+			}
+			if sc.Origin() != nil && sc.Origin().Object() != nil {
+				if fn, ok := sc.Origin().Object().(*types.Func); ok {
+					return fn.FullName()
+				}
+			}
+			return sc.String()
+		}
+		// keysOf: the map whose keys the list v holds (nil if not shown)
+		var keysOf func(v ssa.Value, seen map[ssa.Value]bool) ssa.Value
+		keysOf = func(v ssa.Value, seen map[ssa.Value]bool) ssa.Value {
+			if seen[v] {
+				return nil
+			}
+			seen[v] = true
+			switch x := v.(type) {
+			case *ssa.Call:
+				if strings.HasPrefix(full(x), "slices.Sorted") || strings.HasPrefix(full(x), "slices.Collect") {
+					if in, ok := x.Call.Args[0].(*ssa.Call); ok && strings.HasPrefix(full(in), "maps.Keys") {
+						return in.Call.Args[0]
+					}
+					return nil
+				}
+				if b, ok := x.Call.Value.(*ssa.Builtin); ok && b.Name() == "append" && len(x.Call.Args) == 2 {
+					// append(list, key...) : the appended slice is a one-element literal holding a key of the ranged map
+					var m ssa.Value
+					if sl, ok := x.Call.Args[1].(*ssa.Slice); ok {
+						if al, ok := sl.X.(*ssa.Alloc); ok {
+							for _, ref := range *al.Referrers() {
+								if ia, ok := ref.(*ssa.IndexAddr); ok {
+									for _, r2 := range *ia.Referrers() {
+										if st, ok := r2.(*ssa.Store); ok {
+											if ex, ok := st.Val.(*ssa.Extract); ok && ex.Index == 1 {
+												if nx, ok := ex.Tuple.(*ssa.Next); ok {
+													if rg, ok := nx.Iter.(*ssa.Range); ok {
+														m = rg.X
+													}
+												}
+											}
+										}
 									}
 								}
 							}
 						}
-						return true
-					})
+					}
+					if m == nil {
+						return nil
+					}
+					if rest := keysOf(x.Call.Args[0], seen); rest != nil && rest != m {
+						return nil
+					}
+					return m
 				}
+			case *ssa.Phi:
+				var m ssa.Value
+				for _, e := range x.Edges {
+					em := keysOf(e, seen)
+					if em == nil {
+						if seen[e] {
+							continue
+						}
+						if sl, ok := e.(*ssa.Slice); ok {
+							_ = sl
+							continue // the empty list the collection starts from
+						}
+						if mk, ok := e.(*ssa.MakeSlice); ok {
+							_ = mk
+							continue
+						}
+						if k, ok := e.(*ssa.Const); ok && k.IsNil() {
+							continue
+						}
+						return nil
+					}
+					if m != nil && m != em {
+						return nil
+					}
+					m = em
+				}
+				return m
 			}
-		case *ast.ExprStmt:
-			if ce, ok := x.X.(*ast.CallExpr); ok {
-				if c := calleeOf(p, ce); c != nil && (c.FullName() == "slices.Sort" || c.FullName() == "sort.Strings") && keySlice != nil && objOfIdent(p, ce.Args[0]) == keySlice {
-					sortIdx = i
+			return nil
+		}
+		for _, b := range cf.Blocks {
+			for _, in := range b.Instrs {
+				c, ok := in.(*ssa.Call)
+				if !ok || c.Call.StaticCallee() == nil || nm(c.Call.StaticCallee()) != "AddKey" || len(c.Call.Args) != 3 {
+					continue
+				}
+				// receiver chain PeakPath().LastPathElem()
+				lp, ok := c.Call.Args[0].(*ssa.Call)
+				if !ok || lp.Call.StaticCallee() == nil || nm(lp.Call.StaticCallee()) != "LastPathElem" {
+					continue
+				}
+				pp, ok := lp.Call.Args[0].(*ssa.Call)
+				if !ok || pp.Call.StaticCallee() == nil || nm(pp.Call.StaticCallee()) != "PeakPath" {
+					continue
+				}
+				lk, ok := c.Call.Args[2].(*ssa.Lookup)
+				if !ok || lk.Index != c.Call.Args[1] {
+					continue
+				}
+				ld, ok := c.Call.Args[1].(*ssa.UnOp)
+				if !ok || ld.Op != token.MUL {
+					continue
+				}
+				ia, ok := ld.X.(*ssa.IndexAddr)
+				if !ok {
+					continue
+				}
+				list := ia.X
+				if m := keysOf(list, map[ssa.Value]bool{}); m == nil || m != lk.X {
+					continue
+				}
+				if pm, ok := lk.X.(*ssa.Call); !ok || pm.Call.StaticCallee() == nil || nm(pm.Call.StaticCallee()) != "PopMap" {
+					continue
+				}
+				attached = true
+				// sorted: the list is the result of slices.Sorted, or handed to a sort that dominates the reading loop
+				if lc, ok := list.(*ssa.Call); ok && strings.HasPrefix(full(lc), "slices.Sorted") {
+					sorted = true
+				}
+				for _, ref := range *list.Referrers() {
+					if sc, ok := ref.(*ssa.Call); ok && (full(sc) == "slices.Sort" || full(sc) == "sort.Strings" || strings.HasPrefix(full(sc), "slices.Sort[")) && len(sc.Call.Args) >= 1 && sc.Call.Args[0] == list {
+						if sc.Block().Dominates(ia.Block()) && sc.Block() != ia.Block() {
+							sorted = true
+						}
+					}
 				}
 			}
 		}
 	}
-	r.Check(collectIdx >= 0 && attachIdx > collectIdx, "R02.4", "PredicatesEnd attaches every collected key to the last element", cl.Pos(), "range map → keys; range keys → PeakPath().LastPathElem().AddKey(k, m[k])", "the predicate keys are not attached to the last element of the path under construction")
-	r.Check(sortIdx > collectIdx && sortIdx < attachIdx && sortIdx >= 0, "R02.4", "PredicatesEnd sorts keys before attaching", cl.Pos(), "slices.Sort between collection and attachment", "keys collected from a map are attached without sorting: the key order of the requested path depends on map iteration order / predicate order")
+	r.Check(attached, "R02.4", "PredicatesEnd attaches every collected key to the last element", cl.Pos(), "for k in keys(m): PeakPath().LastPathElem().AddKey(k, m[k]) with m = PopMap()", "the predicate keys are not attached to the last element of the path under construction")
+	r.Check(attached && sorted, "R02.4", "PredicatesEnd sorts keys before attaching", cl.Pos(), "the key list is sorted before the attaching loop reads it", "keys collected from a map are attached without sorting: the key order of the requested path depends on map iteration order / predicate order")
 	// Eq predicate arm: TopSet(left.Literal, right.Literal)
 	eq := w.Method("xpath", "ProgBuilder", "Eq")
 	efd, ep := w.FuncDecl(eq)
